@@ -5,8 +5,12 @@ import McpModel.EventStore.Props
 import McpModel.Conn.Props
 import McpModel.Conn.Deadlock
 import McpModel.Conn.Variant
+import McpModel.Conn.Bridge
+import McpModel.Conn.Sound
+import McpModel.SessClose.Props
 import McpModel.Bearer.Props
 import McpModel.KeepAlive.Props
+import McpModel.KeepAlive.CloseProps
 import McpModel.OAuth.Props
 import McpModel.OAuth.Challenge
 import McpModel.Paginate.Props
@@ -30,3 +34,4 @@ import McpModel.Resume.Window
 import McpModel.Resume.Accept10
 import McpModel.Resume.Sound10
 import McpModel.Resume.WitnessBridge
+import McpModel.Order.Props
